@@ -192,4 +192,77 @@ theorem c11_ban_knowledge_kept (c : Client) (choices : List (Key × Attempt)) (k
   · rw [h2, f3]
     exact ⟨e, h, hb⟩
 
+/-! ### "Tries to sync again later": the scheduling counter of the reporting loop
+(tie: `Tie.sync_schedule`; that iterations keep happening at all is liveness, observed only) -/
+
+theorem c11h_tick_gen (n : Nat) : ∀ (ticks : Nat) (sts : List Nat), ticks + n ≥ 60 → sts.length ≥ n → n ≥ 1 →
+    true ∈ (tickRun ticks sts).take n := by
+  induction n with
+  | zero => intro _ _ _ _ h; omega
+  | succ n ih =>
+    intro ticks sts h1 h2 _
+    cases sts with
+    | nil => simp at h2
+    | cons st rest =>
+      simp only [tickRun, tickStep]
+      by_cases hs : shouldSync (ticks + 1) st = true
+      · simp [hs]
+      · simp only [hs]
+        have hlt : ticks + 1 < 60 := by
+          unfold shouldSync at hs
+          simp at hs
+          omega
+        have : n ≥ 1 := by omega
+        have := ih (ticks + 1) rest (by omega) (by simpa using h2) this
+        simp [List.take_succ_cons, this]
+
+
+theorem c11h_retry_gen (n : Nat) : ∀ (ticks : Nat) (sts : List Nat), (∃ k, 1 ≤ k ∧ k ≤ n ∧ (ticks + k) % 4 = 3) →
+    sts.length ≥ n → (∀ s ∈ sts, s = 0) → true ∈ (tickRun ticks sts).take n := by
+  induction n with
+  | zero => intro _ _ ⟨k, h1, h2, _⟩ _ _; omega
+  | succ n ih =>
+    intro ticks sts ⟨k, hk1, hk2, hk3⟩ h2 hf
+    cases sts with
+    | nil => simp at h2
+    | cons st rest =>
+      have hst : st = 0 := hf st (by simp)
+      subst hst
+      simp only [tickRun, tickStep]
+      by_cases hs : shouldSync (ticks + 1) 0 = true
+      · simp [hs]
+      · simp only [hs]
+        have hne : (ticks + 1) % 4 ≠ 3 := by
+          unfold shouldSync at hs
+          simp at hs
+          omega
+        have hk : k ≥ 2 := by
+          rcases Nat.lt_or_ge k 2 with h | h
+          · have : k = 1 := by omega
+            subst this; exact absurd hk3 hne
+          · exact h
+        have := ih (ticks + 1) rest ⟨k - 1, by omega, by omega, by rw [← hk3]; congr 1; omega⟩
+          (by simpa using h2) (fun s hs' => hf s (by simp [hs']))
+        simp [List.take_succ_cons, this]
+
+
+/-- A failed round is retried within 4 iterations of the loop (3 after a reset of the counter). -/
+theorem c11_retry_after_failure (ticks : Nat) (sts : List Nat) (h : 4 ≤ sts.length)
+    (hf : ∀ s ∈ sts, s = 0) :
+    true ∈ (tickRun ticks sts).take 4 := by
+  apply c11h_retry_gen 4 ticks sts _ h hf
+  have : (ticks + 1) % 4 = 3 ∨ (ticks + 2) % 4 = 3 ∨ (ticks + 3) % 4 = 3 ∨ (ticks + 4) % 4 = 3 := by omega
+  rcases this with h1 | h1 | h1 | h1
+  · exact ⟨1, by omega, by omega, h1⟩
+  · exact ⟨2, by omega, by omega, h1⟩
+  · exact ⟨3, by omega, by omega, h1⟩
+  · exact ⟨4, by omega, by omega, h1⟩
+
+/-- Whatever the outcomes, a round is started at least every 60 iterations. -/
+theorem c11_sync_at_least_every_60 (ticks : Nat) (sts : List Nat) (hk : ticks ≤ 60) (h : sts.length ≥ 60) :
+    true ∈ (tickRun ticks sts).take 60 :=
+  c11h_tick_gen 60 ticks sts (by omega) h (by omega)
+
+example : tickRun 30 (List.replicate 8 0) = [true, false, false, true, false, false, true, false] := by decide
+
 end Gca.Cl
